@@ -84,6 +84,8 @@ impl OpDef {
 pub struct Ctx {
     /// cookie of the last KeepAlive seen on the wire / used for injected KeepAlive messages
     pub cookie: u16,
+    /// name of the op whose peer messages are being built (a typed query helper gets a result of its type)
+    pub hint: &'static str,
 }
 
 #[derive(Debug, Clone)]
@@ -191,7 +193,7 @@ impl<A: Agent> Rig<A> {
             raw: RawPeer::new(raw_ch),
             sentinel,
             running: Some(running),
-            ctx: Ctx { cookie: 0x5a17 },
+            ctx: Ctx { cookie: 0x5a17, hint: "" },
             stash: vec![],
             used: BTreeSet::new(),
         })
@@ -429,8 +431,9 @@ pub struct Exec {
 
 async fn exec_op<A: Agent>(rig: &mut Rig<A>, op: &OpDef, inject: &[Inj]) -> Result<Exec, Trouble> {
     rig.used.insert(op.method());
+    rig.ctx.hint = op.name;
     let out = if op.reactive {
-        let ctx = Ctx { cookie: rig.ctx.cookie };
+        let ctx = Ctx { cookie: rig.ctx.cookie, hint: op.name };
         let Rig { agent, raw, stash, ctx: live, .. } = rig;
         let call = net::within("a high-level agent call", agent.op(op.name, &ctx));
         // the peer follows the method: after each message the agent sends it learns the cookie, then answers
@@ -477,6 +480,7 @@ async fn exec_op<A: Agent>(rig: &mut Rig<A>, op: &OpDef, inject: &[Inj]) -> Resu
         }
         net::within("a high-level agent call", rig.agent.op(op.name, &rig.ctx)).await?
     };
+    rig.ctx.hint = "";
     let sent = rig.wire().await?;
     Ok(Exec { out, sent, seen: rig.observe() })
 }
@@ -1319,7 +1323,7 @@ fn keepalive_cookie_mismatch(s: &Session, delta: &u16, obs: &mut Obs) -> Result<
     let r: Result<Result<(), Fail>, Trouble> = rt.block_on(async move {
         let mut rig = Rig::<ag::KaClient>::new()?;
         let res = async {
-            let ctx0 = Ctx { cookie: rig.ctx.cookie };
+            let ctx0 = Ctx { cookie: rig.ctx.cookie, hint: "" };
             let out = rig.agent.op("send_keepalive_request", &ctx0).await;
             if let OpOut::Rejected(e) = &out {
                 return Ok(Err(Fail { sig: "c23:keepalive:client:Client:KeepAlive:send-refused".into(), msg: format!("send_keepalive_request failed: {e}") }));
@@ -1328,7 +1332,7 @@ fn keepalive_cookie_mismatch(s: &Session, delta: &u16, obs: &mut Obs) -> Result<
             let before = rig.agent.state();
             rig.ctx.cookie = rig.ctx.cookie.wrapping_add(delta);
             rig.inject(&Inj { kind: "ResponseKeepAlive", bad: None }).await?;
-            let ctx1 = Ctx { cookie: rig.ctx.cookie };
+            let ctx1 = Ctx { cookie: rig.ctx.cookie, hint: "" };
             let out = rig.agent.op("recv_keepalive_response", &ctx1).await;
             let ok = matches!(out, OpOut::Accepted);
             let after = rig.agent.state();
@@ -1408,6 +1412,13 @@ pub fn run(s: &Session) {
     s.note("payload_cases", serde_json::json!(payload.len()));
     s.foreach("payload-refusals", payload, true, |c, obs| dispatch_payload(s, c, obs));
     s.forall("walks", s.pick(60_000, 1_000_000), walk, |w, obs| dispatch_walk(s, w, obs));
+    let decoded = ag::ls_decoded();
+    s.note("typed_query_results_decoded", serde_json::json!(decoded));
+    if !s.replaying() {
+        for h in ag::LS_DECODABLE {
+            s.health(decoded.contains(h), &format!("localstate: the harness' result for `{h}` was never decoded by the helper (update its payload in ls_result)"));
+        }
+    }
     let n = check_all_methods(s);
     s.note("public_methods_in_table", serde_json::json!(n));
     if !s.replaying() {
